@@ -659,6 +659,23 @@ def real_lex(text):
         return Atom('err')
 
 
+def _listify(node):
+    """the transformer builds some sequence fields as tuples (the `(k,)` of `_lookup_item`); `ast.NodeTransformer`
+    and `ast.walk` only descend into lists"""
+    if isinstance(node, ast.AST):
+        for f in node._fields:
+            v = getattr(node, f, None)
+            if isinstance(v, tuple):
+                v = list(v)
+                setattr(node, f, v)
+            if isinstance(v, list):
+                for x in v:
+                    _listify(x)
+            else:
+                _listify(v)
+    return node
+
+
 def compare_model(cases, res):
     """Lean xform vs the real ExpressionASTTransformer (trees), Lean lex vs interpolation.lex"""
     from genshi.template import eval as ev
@@ -686,6 +703,16 @@ def compare_model(cases, res):
             want = Atom('raises:' + type(e).__name__)
         lines.append(req)
         meta.append(('xform', c, want))
+        if isinstance(want, list):
+            # the rewriting undone (Lean unxf on the real transformed tree) gives back the tree that was parsed:
+            # the executable form of xform_invertible, and the tie of the oracle helper c13._Unrewrite to unxf
+            from harness.props import c13
+            try:
+                back = c13._Unrewrite().visit(_listify(ev.ExpressionASTTransformer().visit(copy.deepcopy(node))))
+                lines.append(proto.line(Atom('C03'), Atom('unxf'), want[1]))
+                meta.append(('unxf', c, ([Atom('ok'), G.to_wire(back.body)], [Atom('ok'), G.to_wire(node.body)])))
+            except RecursionError:
+                pass
     answers = proto.run_lines(lines)
     for (what, c, want), ans in zip(meta, answers):
         if ans == 'unmodelled':
@@ -698,6 +725,14 @@ def compare_model(cases, res):
             model = Atom(ans)
         if what == 'lex':
             res.count('model:lex:' + ('err' if want == 'err' else 'ok'))
+        if what == 'unxf':
+            py_back, orig = want
+            reserved = any(x in c['src'] for x in ('_lookup_', '__data__'))
+            if model != py_back:
+                res.disagreements.append({'stream': 'unxf-vs-_Unrewrite', 'case': c, 'model': repr(model)[:700], 'real': repr(py_back)[:700]})
+            elif model != orig and not reserved:
+                res.disagreements.append({'stream': 'unxf-roundtrip', 'case': c, 'model': repr(model)[:700], 'real': repr(orig)[:700]})
+            continue
         if model != want:
             res.disagreements.append({'stream': what, 'case': c, 'model': repr(model)[:700], 'real': repr(want)[:700]})
 
